@@ -3,7 +3,9 @@ import random
 import docs
 from docs import UA
 
-TEXTS = ["Motor", "Tank 1", "a<b", "x&y", "q\"uote", "it's", "é", "😀", " lead", "trail ", "a:b", "a;b=c", "ns=1", "", "multi\nline", "tab\there", "<![CDATA[", "]]>"]
+TEXTS = ["Motor", "Tank 1", "a<b", "x&y", "q\"uote", "it's", "é", "😀", " lead", "trail ", "a:b", "a;b=c", "ns=1", "", "multi\nline", "tab\there", "<![CDATA[", "]]>", "lim[i[0]]>max", "a > b", "&amp;"]
+# texts every hostile graph carries somewhere (markup that an escaping shortcut would let through)
+MUST = ["idx[a[0]]>b", "a<b&c>d", "q\"uote's", "<![CDATA[x]]>"]
 NAMES = ["Motor", "Tank", "Level", "a<b", "x&y", "é", "n s", "semi;colon", "eq=ual", "q\"uote", "Var:colon"]
 ATTRS_BY_CLASS = {
     "UAObject": ["EventNotifier", "SymbolicName", "ParentNodeId", "ReleaseStatus"],
@@ -25,7 +27,7 @@ def rident(rng, t, i):
     if t == "i": return str(1000 + i)
     if t == "g": return "%08x-0000-0000-0000-%012x" % (i, rng.getrandbits(40))
     if t == "b": return "QUJD" + str(i)
-    return rng.choice(["Node%d" % i, "n s%d" % i, "a;b=%d" % i, "é%d" % i, "x%d=ns" % i, "weird<&>%d" % i]) if rng.random() < 0.5 else "S%d" % i
+    return rng.choice(["Node%d" % i, "n s%d" % i, "a;b=%d" % i, "é%d" % i, "x%d=ns" % i, "weird<&>%d" % i, "k[[%d]]>" % i]) if rng.random() < 0.5 else "S%d" % i
 
 BASE_TYPES = [("i", "45", "UAReferenceType", "HasSubtype"), ("i", "47", "UAReferenceType", "HasComponent"), ("i", "35", "UAReferenceType", "Organizes"),
               ("i", "40", "UAReferenceType", "HasTypeDefinition"), ("i", "46", "UAReferenceType", "HasProperty"), ("i", "37", "UAReferenceType", "HasModellingRule"),
@@ -60,7 +62,9 @@ def gen_graph(rng, n_ns=2, n_nodes=6, hostile=True, with_values=True, dangling=T
         for a in ATTRS_BY_CLASS[cls]:
             if rng.random() < 0.45:
                 if a == "DataType": attrs[a] = rng.choice(datatypes)
-                elif a in ("ParentNodeId", "MethodDeclarationId"): attrs[a] = rng.choice(keys) if keys else (UA, "i", "85")
+                elif a in ("ParentNodeId", "MethodDeclarationId"):
+                    attrs[a] = rng.choice(keys) if keys else (UA, "i", "85")
+                    if dangling and rng.random() < 0.15: attrs[a] = (rng.choice(g.uris + [UA]), "i", str(9000 + rng.randint(0, 5)))     # a node no document defines
                 elif a in ("IsAbstract", "Symmetric", "Historizing"): attrs[a] = rng.choice(["true", "false"])
                 elif a == "ValueRank": attrs[a] = str(rng.choice([-3, -2, -1, 0, 1, 2, 3, 127, 128, 1000]))
                 elif a == "EventNotifier": attrs[a] = str(rng.choice([0, 1, 4, 5, 127, 128, 255]))
@@ -71,13 +75,16 @@ def gen_graph(rng, n_ns=2, n_nodes=6, hostile=True, with_values=True, dangling=T
                 elif a == "ReleaseStatus": attrs[a] = rng.choice(["Draft", "Deprecated"])
         value = None
         if with_values and cls in ("UAVariable", "UAVariableType") and rng.random() < 0.6 and value_gen: value = value_gen(rng)
-        g.nodes[k] = dict(cls=cls, bname=(bn_uri, name), display=rng.choice(TEXTS) if hostile else name, desc=rng.choice([None, None] + TEXTS) if hostile else None, attrs=attrs, value=value)
+        desc = rng.choice([None, None] + TEXTS) if hostile else None
+        disp = rng.choice(TEXTS) if hostile else name
+        if hostile and i < len(MUST): (desc, disp) = (MUST[i], disp) if rng.random() < 0.5 else (desc, MUST[i])
+        g.nodes[k] = dict(cls=cls, bname=(bn_uri, name), display=disp, desc=desc, attrs=attrs, value=value)
         g.order.append(k); keys.append(k)
     allk = list(g.nodes)
     for _ in range(rng.randint(n_nodes // 2, 2 * n_nodes)):
         if not keys: break
         s = rng.choice(keys); t = rng.choice(allk if rng.random() < 0.8 else keys)
-        if dangling and rng.random() < 0.08: t = (rng.choice(g.uris + [UA]), "i", str(9000 + rng.randint(0, 50)))
+        if dangling and rng.random() < 0.08: t = (rng.choice(g.uris + [UA]), "i", str(9000 + rng.randint(0, 5 if rng.random() < 0.6 else 50)))
         ty = rng.choice(reftypes)
         if rng.random() < 0.5: s, t = t, s
         g.refs.append((s, t, ty))
